@@ -209,3 +209,12 @@ Fixpoint holds_with (g : cfg) (c : op -> obs -> spec -> bool) (ops : list op) (o
 Definition holds (nm nv timeout : Z) (ops : list op) (obs : list obs) : bool :=
   let g := mkcfg nm nv timeout in
   if cfg_ok g then holds_with g (chk g) ops obs spec0 else true.
+
+(* the flood case: however many allocations are attempted on a full manager, none succeeds, the live
+   counters stay enumerated and counter 0 keeps its label *)
+Definition holds_flood (nm nv : Z) (obs : Z * Z * cres Z * cres (list Z) * cres Z) : bool :=
+  let '(filled, oks, last, ids, lab0) := obs in
+  let n := Z.min nm nv in
+  (filled =? n) && (oks =? 0) && is_err last
+  && (match ids with COk l => leqb l (zrange 0 (Z.to_nat n)) | _ => false end)
+  && cres_eqb lab0 (hash (mk_label 2 0 (-1))).
